@@ -686,7 +686,12 @@ def builtin_method(I: Interp, base, name, args, kwargs, node=None):
         if name == "get":
             k = args[0]
             if is_sym(k):
-                raise Unsupported("dict.get with symbolic key")
+                for kk, vv in base.d.items():
+                    if I.branch(I.py_eq(k, kk)):
+                        return vv
+                if getattr(base, "assoc", None) is not None and not (isinstance(base.assoc.n, int) and base.assoc.n == 0):
+                    raise Unsupported("dict.get with symbolic key on an association list")
+                return args[1] if len(args) > 1 else None
             return base.d.get(k, args[1] if len(args) > 1 else None)
         if name == "setdefault":
             return base.d.setdefault(args[0], args[1] if len(args) > 1 else None)
